@@ -53,11 +53,10 @@ Proof.
   destruct (Nat.eqb n 0) eqn:En.
   - inversion H; subst. exists s2. split; [reflexivity|]. split; [exact Hx|].
     destruct Hx as [Hp _]. symmetry. apply setpos_same. exact Hp.
-  - destruct (Nat.eqb (length (avail s1)) 0) eqn:E0; [destruct (closed s1); discriminate|].
-    destruct (Nat.ltb (length (avail s1)) n) eqn:El; [discriminate|].
-    apply Nat.eqb_neq in E0. apply Nat.ltb_ge in El. inversion H; subst; clear H.
+  - destruct (Nat.ltb (length (avail s1)) n) eqn:El; [destruct (closed s1); discriminate|].
+    apply Nat.eqb_neq in En. apply Nat.ltb_ge in El. inversion H; subst; clear H.
+    assert (E0: length (avail s1) <> 0) by lia.
     destruct (avail_ext _ _ Hx E0) as [more Hav]. rewrite Hav, app_length.
-    assert (Nat.eqb (length (avail s1) + length more) 0 = false) as -> by (apply Nat.eqb_neq; lia).
     assert (Nat.ltb (length (avail s1) + length more) n = false) as -> by (apply Nat.ltb_ge; lia).
     rewrite firstn_app_le by lia.
     eexists; split; [reflexivity|]. destruct Hx as [Hp [Hmk [m Hm]]].
@@ -69,17 +68,23 @@ Qed.
 Lemma attempt_under_same s n s' : attempt s n = (Under, s') -> s' = s.
 Proof.
   unfold attempt. destruct (Nat.eqb n 0); [discriminate|].
-  destruct (Nat.eqb (length (avail s)) 0); [destruct (closed s); intros H; inversion H; auto|].
-  destruct (Nat.ltb (length (avail s)) n); intros H; inversion H; auto.
+  destruct (Nat.ltb (length (avail s)) n); [|discriminate].
+  destruct (closed s); intros H; inversion H; auto.
 Qed.
 
 Lemma attempt_under_missing s n s' : attempt s n = (Under, s') -> length (avail s) < n.
 Proof.
-  unfold attempt. destruct (Nat.eqb n 0) eqn:En; [discriminate|]. apply Nat.eqb_neq in En.
-  destruct (Nat.eqb (length (avail s)) 0) eqn:E0.
-  - apply Nat.eqb_eq in E0. intros _. lia.
-  - destruct (Nat.ltb (length (avail s)) n) eqn:El; [|discriminate].
-    apply Nat.ltb_lt in El. intros _. exact El.
+  unfold attempt. destruct (Nat.eqb n 0); [discriminate|].
+  destruct (Nat.ltb (length (avail s)) n) eqn:El; [|discriminate].
+  apply Nat.ltb_lt in El. intros _. exact El.
+Qed.
+
+(* an underrun is reported only while the stream is open *)
+Lemma attempt_under_open s n s' : attempt s n = (Under, s') -> closed s = false.
+Proof.
+  unfold attempt. destruct (Nat.eqb n 0); [discriminate|].
+  destruct (Nat.ltb (length (avail s)) n); [|discriminate].
+  destruct (closed s); [discriminate|reflexivity].
 Qed.
 
 (* an attempt changes nothing but the position *)
@@ -87,25 +92,23 @@ Lemma attempt_frame s n r s' : attempt s n = (r, s') ->
   arrived s' = arrived s /\ closed s' = closed s /\ mark s' = mark s.
 Proof.
   unfold attempt. destruct (Nat.eqb n 0); [intros H; inversion H; auto|].
-  destruct (Nat.eqb (length (avail s)) 0); [intros H; inversion H; auto|].
   destruct (Nat.ltb (length (avail s)) n); intros H; inversion H; auto.
 Qed.
 
 Lemma attempt_eos_closed s n s' : attempt s n = (EOS, s') -> closed s = true.
 Proof.
   unfold attempt. destruct (Nat.eqb n 0); [discriminate|].
-  destruct (Nat.eqb (length (avail s)) 0); [destruct (closed s); auto; discriminate|].
-  destruct (Nat.ltb (length (avail s)) n); discriminate.
+  destruct (Nat.ltb (length (avail s)) n); [|discriminate].
+  destruct (closed s); [reflexivity|discriminate].
 Qed.
 
 (* the position never runs past the arrived bytes *)
 Lemma attempt_pos_le s n r s' : attempt s n = (r, s') ->
   pos s <= length (arrived s) -> pos s' <= length (arrived s').
 Proof.
-  unfold attempt. destruct (Nat.eqb n 0); [intros H; inversion H; auto|].
-  destruct (Nat.eqb (length (avail s)) 0); [intros H; inversion H; auto|].
+  unfold attempt. destruct (Nat.eqb n 0) eqn:En; [intros H; inversion H; auto|].
   destruct (Nat.ltb (length (avail s)) n) eqn:El; intros H; inversion H; auto.
-  apply Nat.ltb_ge in El. rewrite avail_length in El. cbn. lia.
+  apply Nat.ltb_ge in El. apply Nat.eqb_neq in En. rewrite avail_length in El. cbn. lia.
 Qed.
 
 (* ---------- frame properties of resume (any tree) ---------- *)
@@ -440,10 +443,10 @@ Definition insufficient {A} (x: (proc A * stream) + (res A * stream)) : Prop :=
   | _ => False
   end.
 
-(* sharper: an end-of-stream error needs a closed stream *)
+(* sharper: a suspension exactly when the stream is open, the end-of-stream error exactly when closed *)
 Definition insufficient_cl {A} (cl: bool) (x: (proc A * stream) + (res A * stream)) : Prop :=
   match x with
-  | inl _ => True
+  | inl _ => cl = false
   | inr (Err EEndOfStream, _) => cl = true
   | _ => False
   end.
@@ -469,11 +472,9 @@ Proof.
     destruct (Nat.eqb n 0) eqn:En.
     + eapply IH; eauto.
     + apply Nat.eqb_neq in En.
-      destruct (Nat.eqb (length e - q) 0) eqn:E0; [destruct cl1; discriminate|].
-      destruct (Nat.ltb (length e - q) n) eqn:E1; [discriminate|].
+      destruct (Nat.ltb (length e - q) n) eqn:E1; [destruct cl1; discriminate|].
       apply Nat.ltb_ge in E1.
-      destruct (Nat.eqb (k - q) 0) eqn:E2; [destruct cl2; cbn; auto|].
-      destruct (Nat.ltb (k - q) n) eqn:E3; [exact I|].
+      destruct (Nat.ltb (k - q) n) eqn:E3; [destruct cl2; reflexivity|].
       apply Nat.ltb_ge in E3.
       rewrite (avail_firstn e k q cl2 cl1 m) by lia. rewrite firstn_firstn, Nat.min_l by lia.
       cbn [setpos arrived pos closed mark] in *.
@@ -488,6 +489,12 @@ Lemma insufficient_cl_weaken {A} cl (x: (proc A * stream) + (res A * stream)) :
   insufficient_cl cl x -> insufficient x.
 Proof.
   destruct x as [[q s]|[[a|e] s]]; cbn; auto. destruct e; auto.
+Qed.
+
+Lemma insufficient_cl_closed {A} (x: (proc A * stream) + (res A * stream)) :
+  insufficient_cl true x -> exists s, x = inr (Err EEndOfStream, s).
+Proof.
+  destruct x as [[q s]|[[a|e] s]]; cbn; [discriminate|tauto|]. destruct e; try tauto. eauto.
 Qed.
 
 Lemma insufficient_cl_open {A} (x: (proc A * stream) + (res A * stream)) :
@@ -513,6 +520,28 @@ Theorem prefix_insufficient_open {A} (p: proc A) : clean p -> forall e k q a s',
 Proof.
   intros Hc e k q a s' Hlt Hq H Hpos. apply insufficient_cl_open.
   eapply prefix_gen; eauto.
+Qed.
+
+(* the streaming decoder on a stream that ended at the cut raises the end-of-stream error *)
+Theorem prefix_closed_eos {A} (p: proc A) : clean p -> forall e k q a s',
+  k < length e -> q <= k ->
+  resume p (mkStream e q true 0) = inr (Ok a, s') -> k < pos s' ->
+  exists s1, resume p (mkStream (firstn k e) q true 0) = inr (Err EEndOfStream, s1).
+Proof.
+  intros Hc e k q a s' Hlt Hq H Hpos. apply insufficient_cl_closed.
+  eapply prefix_gen; eauto.
+Qed.
+
+(* a clean decoder never suspends on a closed stream *)
+Theorem closed_no_suspend {A} (p: proc A) : clean p -> forall s,
+  closed s = true -> exists r s', resume p s = inr (r, s').
+Proof.
+  induction 1 as [a0|e|n k Hk IH|k Hk IH|d k Hk IH|k Hk IH|k Hk IH]; intros s Hcl; cbn [resume];
+    eauto.
+  destruct (attempt s n) as [[c| |] sm] eqn:E.
+  - apply IH. destruct (attempt_frame _ _ _ _ E) as [_ [Hc _]]. congruence.
+  - apply attempt_under_open in E. congruence.
+  - eauto.
 Qed.
 
 (* ---------- guard: arbitrary trees, for runs that never touch an unclean node ---------- *)
@@ -642,6 +671,20 @@ Proof.
   destruct (guard_susp u p _ _ _ E) as [p'' [_ E']]. eauto.
 Qed.
 
+Theorem prefix_closed_eos_run {A} (u: err) (p: proc A) e k q a s' :
+  u <> EEndOfStream ->
+  k < length e -> q <= k ->
+  resume (guard u p) (mkStream e q true 0) = inr (Ok a, s') -> k < pos s' ->
+  exists s1, resume p (mkStream (firstn k e) q true 0) = inr (Err EEndOfStream, s1).
+Proof.
+  intros Hu Hlt Hq H Hpos.
+  destruct (prefix_closed_eos _ (guard_clean u p) e k q a s' Hlt Hq H Hpos) as [s1 E].
+  exists s1. apply (guard_done u); [exact E|]. congruence.
+Qed.
+
+Print Assumptions closed_no_suspend.
+Print Assumptions prefix_closed_eos.
+Print Assumptions prefix_closed_eos_run.
 Print Assumptions underrun_only_when_missing.
 Print Assumptions exact_consumption.
 Print Assumptions exact_consumption_tail.
